@@ -1,6 +1,22 @@
 """
 C06 - CIM data types hold only representable values and print/parse
 losslessly.  DESIGN.md 4.6.
+
+Sub-checks int_*, cimvalue, datetime*, reals build a fresh object per example
+and call each API once (the int_random, datetime and reals oracles
+additionally ask the same object / a used parser a second time:
+`*:repeated-call-differs`).  typed_seq is the sequence check: typed values
+are given to EXISTING typed elements of one object through every documented
+route (value setter, type setter + value setter, CIMInstance.update_existing
+with a dict / tuples / kwargs / NocaseDict / CIMInstanceName / CIMInstance /
+another instance of the state / itself, CIMInstance.update, __setitem__, the
+properties setter, copy()), several times in a row, and after every step the
+state is compared with (1) the property statement itself (every element holds
+None or objects of exactly the class of its CIM type, integers in range),
+(2) a model advanced with freshly built equal values through a fresh
+cimvalue(v, type) / CIMProperty(name, v) call, (3) no list object being the
+value of two elements or of an element and the source object of the step.
+Signatures: typed-seq:<route>:<what>, one per route and kind of deviation.
 """
 
 import math
@@ -39,8 +55,19 @@ RULE = (
     "tuple parser.  Non-trivial = boundary or out-of-range integer; "
     "(value, type) pair whose Python type differs from the target class; "
     "datetime with asterisks or |offset| > 720 or interval; real needing "
-    "more than 6 significant digits or special.  Distinct = distinct "
-    "generated input.")
+    "more than 6 significant digits or special.  typed_seq: two "
+    "CIMInstance objects with 1-4 typed properties each (4 names, 15 types, "
+    "scalar/array, other types under the same name in the two instances) "
+    "and two standalone CIMProperty/CIMParameter/CIMQualifier/"
+    "CIMQualifierDeclaration objects, 2-8 steps over the routes of the module "
+    "docstring with values aimed at the declared type of the target "
+    "(plain int/float/str in and out of range, other CIM integer/real "
+    "types, datetime/timedelta/strings, wrong kinds, None, lists with None "
+    "items, shape mismatches); non-trivial = a history with an accepted "
+    "update_existing or with two different routes; classes seq:step:<route> "
+    "count executed steps, seq:upx-value-needs-conversion:* the items of "
+    "update_existing whose value was not yet an object of the target type. "
+    "Distinct = distinct generated input.")
 ASSUMPTIONS = [
     "pywbem.config.ENFORCE_INTEGER_RANGE is left at its default (True)",
     "CIMDateTime domain: timedelta 0..99999999 days, tz offsets that are "
@@ -48,6 +75,37 @@ ASSUMPTIONS = [
     "for type 'string' an embedded CIMInstance/CIMClass is a legal value "
     "(embedded objects); Char16 counts as str",
     "NaN is compared with math.isnan, the sign of zero with copysign",
+    "typed_seq: the value setters do not compare the shape of the value "
+    "with is_array (a scalar can be given to an array element and vice "
+    "versa), only the constructors do; the check accepts that (the stored "
+    "items must still be of the CIM type) and calls copy() only on "
+    "elements whose value has the declared shape, holds no embedded "
+    "object and whose embedded_object attribute is not set (it is inferred "
+    "by the constructor and not maintained by the value/type setters)",
+    "typed_seq: the type attribute is only changed together with a new "
+    "value (type setter followed by value setter; the old type is put back "
+    "if the value is rejected) - pywbem documents no re-conversion of the "
+    "present value when type is set",
+    "typed_seq: for string/char16 elements a non-text object that is kept "
+    "unchanged is the known finding of sub-check cimvalue and only counted "
+    "(seq:known-nontext-held-for-string); it must still be what a fresh "
+    "cimvalue() returns",
+    "typed_seq: CIMInstance.copy() shares its CIMProperty objects with the "
+    "original (documented) and is not a step; update(self) and "
+    "properties = self are not modelled",
+]
+SENSITIVITY = [
+    "CIMInstance.update_existing() assigns prop._value directly when the "
+    "source is a CIMInstance/CIMInstanceName (seeded change 6) -> typed_seq/"
+    "typed-seq:update_existing(inst|path|state):holds-wrong-class-for-"
+    "<int|real|datetime|boolean|reference>, :accepts-what-fresh-conversion-"
+    "rejects, :differs-from-fresh-conversion, :array-value-shared-between-"
+    "objects (hundreds of hits per quick run)",
+    "seeded changes 1-5 (interval str() via total_seconds, '.0' appended "
+    "after the exponent, cimvalue() array shortcut, minutes_from_utc "
+    "wrap-around, CIMInt keyword form skipping the range check) -> "
+    "datetime*/datetime:*, reals/real:spelling, cimvalue/typed-store:*, "
+    "int_*/int-range:out-of-range-object (see seeded/C06)",
 ]
 
 # ---------------------------------------------------------------------------
@@ -960,6 +1018,13 @@ class _Seq:
         called when the shapes agree.
         """
         a = getattr(o, 'is_array', None)
+        items = o.value if isinstance(o.value, list) else [o.value]
+        if getattr(o, 'embedded_object', None) or \
+                any(isinstance(x, (CIMInstance, CIMClass)) for x in items):
+            # embedded_object is inferred by the constructor from the value
+            # and compared with the type and value; the setters do neither
+            self.ctx.event('seq:copy-skipped-embedded-object')
+            return False
         if a is None or o.value is None or isinstance(o.value, list) == a:
             return True
         self.ctx.event('seq:copy-skipped-shape-mismatch')
